@@ -50,22 +50,22 @@ Theorem k_disc_sound tr :
     cnt isF pre <= S (cnt isR pre) /\ cnt isR pre <= cnt isD pre.
 Proof.
   unfold k_disc.
-  assert (G : forall tr i m done,
+  assert (G : forall tr0 i m done,
              disc_counts (snd m) done ->
-             mon_from (disc_step true) (fun m => phase_bad (snd m)) i m tr = None ->
-             forall pre suf, tr = pre ++ suf ->
+             mon_from (disc_step true) (fun m => phase_bad (snd m)) i m tr0 = None ->
+             forall pre suf, tr0 = pre ++ suf ->
                exists ph, disc_counts ph (done ++ pre)).
-  { induction tr as [|e tr IH]; intros i m done Hd Hm pre suf E.
+  { intros tr0; induction tr0 as [|e tr0 IH]; intros i m done Hd Hm pre suf E.
     - destruct pre; [|discriminate]. rewrite app_nil_r. eauto.
     - cbn in Hm. destruct (phase_bad (snd (disc_step true m e))) eqn:Hb; [discriminate|].
       destruct pre as [|x pre].
       + rewrite app_nil_r. eauto.
-      + cbn in E. injection E as <- E.
-        replace (done ++ x :: pre) with ((done ++ [x]) ++ pre) by (rewrite <- app_assoc; reflexivity).
+      + cbn in E. injection E as E1 E. subst x.
+        replace (done ++ e :: pre) with ((done ++ [e]) ++ pre) by (rewrite <- app_assoc; reflexivity).
         eapply IH; [|exact Hm|exact E]. apply disc_counts_step; auto. }
   intros H pre suf E.
   destruct (G tr 0 (false, PStart 0) [] (conj eq_refl (conj eq_refl eq_refl)) H pre suf E) as [ph Hp].
-  cbn in Hp. unfold disc_counts in Hp. destruct ph; try lia. destruct Hp.
+  cbn in Hp. unfold disc_counts in Hp. destruct ph; try lia; try (destruct Hp).
 Qed.
 
 (** Through a ReconnectClient nothing reaches the application after Close
@@ -75,16 +75,16 @@ Theorem k_after_sound_rc tr :
   forall pre e suf ok, tr = pre ++ e :: suf -> In (ECloseRet ok) pre -> is_handler e = false.
 Proof.
   unfold k_after.
-  assert (G : forall tr i m,
-             mon_from (after_step true) a_bad i m tr = None ->
-             forall pre e suf, tr = pre ++ e :: suf ->
+  assert (G : forall tr0 i m,
+             mon_from (after_step true) a_bad i m tr0 = None ->
+             forall pre e suf, tr0 = pre ++ e :: suf ->
                (a_closed m <> None \/ exists ok, In (ECloseRet ok) pre) -> is_handler e = false).
-  { induction tr as [|x tr IH]; intros i m Hm pre e suf E Hc.
+  { intros tr0; induction tr0 as [|x tr0 IH]; intros i m Hm pre e suf E Hc.
     - destruct pre; discriminate.
     - cbn in Hm. destruct (a_bad (after_step true m x)) eqn:Hb; [discriminate|].
-      destruct pre as [|y pre]; cbn in E; injection E as <- E.
+      destruct pre as [|y pre]; cbn in E; injection E as E1 E; subst x.
       + destruct Hc as [Hc|[ok []]].
-        destruct x; try reflexivity; cbn in Hb; destruct (a_closed m); try congruence; discriminate.
+        destruct e; try reflexivity; cbn in Hb; destruct (a_closed m); try congruence; discriminate.
       + eapply IH; [exact Hm|exact E|].
         destruct Hc as [Hc|[ok [Hc|Hc]]].
         * left. destruct y; cbn; try exact Hc; try discriminate;
@@ -93,3 +93,119 @@ Proof.
         * right. eauto. }
   intros H pre e suf ok E Hin. eapply G; eauto.
 Qed.
+
+(** * Examples: the hypotheses are satisfiable, the monitors are not trivial *)
+
+Definition ex_l : list attempt :=
+  [ {| a_init := true; a_sub := true; a_items := [IMsg 1; IEof] |};
+    {| a_init := true; a_sub := true; a_items := [IMsg 2; IBlock] |} ].
+
+(** one reconnect, then Close while the second stream is idle *)
+Definition ex_tr : list ev :=
+  [ESubCall; EFactory 0; EImplSub 0; ERecv 0 0; EConn; EUpd 0 0 0; ERecv 0 1; EDisc; EReset;
+   EFactory 1; EImplSub 1; EImplClose 0; ERecv 1 0; EConn; EUpd 1 0 0; EUpd 1 0 1; ERecv 1 1;
+   ECloseCall].
+
+Definition ex_states (rc : bool) (l : list attempt) (tr : list ev) : list st :=
+  match model_accepts rc l tr with inr ss => ss | inl _ => [] end.
+
+Lemma ex_states_reach rc l tr s : In s (ex_states rc l tr) -> reach rc (sc_of l) s.
+Proof.
+  unfold ex_states. destruct (model_accepts rc l tr) as [i|ss] eqn:E; [intros []|].
+  intros H. exists tr. unfold model_accepts in E.
+  eapply accepts_sound with (leqb := ev_beq); [|exact E|exact H].
+  intros a b Eb. apply internal_ev_dec_bl. exact Eb.
+Qed.
+
+Lemma find_reach rc l tr f s :
+  find f (ex_states rc l tr) = Some s -> reach rc (sc_of l) s /\ f s = true.
+Proof. intros H. apply find_some in H. split; [apply (ex_states_reach rc l tr)|]; tauto. Qed.
+
+(** hypotheses of [close_subscribe_terminate_rc]: a reachable state with
+    [p.closed] set while the subscriber is blocked in Recv *)
+Example ex_closing :
+  exists s, reach true (sc_of ex_l) s /\ r_closed s = true /\ s_pc s = SItem 1 /\ s_att s = 1.
+Proof.
+  destruct (find (fun s => r_closed s && match s_pc s with SItem 1 => true | _ => false end
+                           && Nat.eqb (s_att s) 1) (ex_states true ex_l ex_tr)) as [s|] eqn:E;
+    [|vm_compute in E; discriminate].
+  apply find_reach in E. destruct E as [Hr Hf]. exists s.
+  apply andb_prop in Hf. destruct Hf as [Hf H3]. apply andb_prop in Hf. destruct Hf as [H1 H2].
+  apply Nat.eqb_eq in H3. destruct (s_pc s) as [| | | | | | | | | |[|[|]]| | | | | | | | | | |]; try discriminate.
+  auto.
+Qed.
+
+(** ... and the execution does reach the end: both calls return *)
+Example ex_terminates :
+  model_accepts true ex_l (ex_tr ++ [EImplClose 1; EImplClose 1; EDisc; ESubRet RCanceled; ECloseRet true])
+  <> inl 0 /\
+  check_case (true, ex_l, ex_tr ++ [EImplClose 1; EImplClose 1; EDisc; ESubRet RCanceled; ECloseRet true]) = [].
+Proof. split; [vm_compute; discriminate|vm_compute; reflexivity]. Qed.
+
+(** hypotheses of [close_subscribe_terminate_base] *)
+Example ex_base_close :
+  exists s, reach false (sc_of ex_l) s /\ close_succeeded s.
+Proof.
+  destruct (find (fun s => c_ok s && match c_pc s with CFin => true | _ => false end)
+              (ex_states false ex_l [ESubCall; EFactory 0; EImplSub 0; ERecv 0 0; ECloseCall;
+                                     EImplClose 0; ECloseRet true])) as [s|] eqn:E;
+    [|vm_compute in E; discriminate].
+  apply find_reach in E. destruct E as [Hr Hf]. exists s. split; [exact Hr|].
+  apply andb_prop in Hf. destruct Hf as [H1 H2]. split; [exact H1|]. destruct (c_pc s); try discriminate; exact Logic.I.
+Qed.
+
+(** [exactly_one_cancel]: both orders occur -- Close before initDone (initDone
+    cancels) and Close after (Close cancels) *)
+Example ex_cancel_by_initdone :
+  exists s, reach true (sc_of ex_l) s /\ ncancel s = 1 /\ c_pc s = CFin /\ s_pc s = SFacChk.
+Proof.
+  destruct (find (fun s => Nat.eqb (ncancel s) 1 && match c_pc s with CFin => true | _ => false end
+                           && match s_pc s with SFacChk => true | _ => false end)
+              (ex_states true ex_l [ECloseCall; ECloseRet false; ESubCall; EFactory 0])) as [s|] eqn:E;
+    [|vm_compute in E; discriminate].
+  apply find_reach in E. destruct E as [Hr Hf]. exists s. split; [exact Hr|].
+  apply andb_prop in Hf. destruct Hf as [Hf H3]. apply andb_prop in Hf. destruct Hf as [H1 H2].
+  apply Nat.eqb_eq in H1. destruct (c_pc s); try discriminate. destruct (s_pc s); try discriminate. auto.
+Qed.
+
+Example ex_cancel_by_close :
+  exists s, reach true (sc_of ex_l) s /\ ncancel s = 1 /\ r_closed s = true /\ s_pc s = SItem 1.
+Proof.
+  destruct ex_closing as [s [Hr [Hc [Hp _]]]]. exists s. split; [exact Hr|].
+  destruct (exactly_one_cancel_lemma _ _ Hr) as [H1 _].
+  destruct (inv3_reach _ _ Hr) as [I3 _].
+  assert (r_hascancel s = true).
+  { destruct (r_hascancel s) eqn:E; auto. destruct (I3 eq_refl); congruence. }
+  destruct (H1 (conj Hc H)). auto.
+Qed.
+
+(** the monitors reject what they should *)
+Example ex_k_disc_rejects_missing_disconnect :
+  k_disc true [ESubCall; EFactory 0; EImplSub 0; ERecv 0 0; EReset] = Some 4.
+Proof. reflexivity. Qed.
+
+Example ex_k_disc_rejects_giving_up :
+  k_disc true [ESubCall; EFactory 0; EDisc; ESubRet RCanceled] = Some 3.
+Proof. reflexivity. Qed.
+
+Example ex_k_order_rejects_reordering :
+  k_order true (sc_of ex_l)
+    [ESubCall; EFactory 1; EImplSub 1; ERecv 1 0; EConn; EUpd 1 0 1; EUpd 1 0 0] = Some 5.
+Proof. vm_compute. reflexivity. Qed.
+
+Example ex_k_order_rejects_second_connected :
+  k_order true (sc_of ex_l) [ESubCall; EFactory 1; ERecv 1 0; EConn; EUpd 1 0 0; EConn] = Some 5.
+Proof. vm_compute. reflexivity. Qed.
+
+Example ex_k_order_rejects_loss :
+  k_order true (sc_of ex_l) [ESubCall; EFactory 0; EImplSub 0; ERecv 0 0; ERecv 0 1; EDisc] = Some 5.
+Proof. vm_compute. reflexivity. Qed.
+
+Example ex_k_after_rejects_two_messages :
+  k_after false [ESubCall; EFactory 0; ERecv 0 0; ECloseCall; ECloseRet true; EConn; EUpd 0 0 0;
+                 ERecv 0 1; EUpd 0 1 0] = Some 8.
+Proof. vm_compute. reflexivity. Qed.
+
+Example ex_k_after_rejects_delivery_after_reconnect_close :
+  k_after true [ESubCall; EFactory 0; ERecv 0 0; ECloseCall; ECloseRet true; EConn] = Some 5.
+Proof. vm_compute. reflexivity. Qed.
